@@ -266,6 +266,8 @@ fn part_tasks(report: &Report, tier: Tier) {
         (json!({"tool": "bash", "args": {"command": "exit 3"}}), "exit3"),
         (json!({"tool": "bash", "args": {"command": "printf 'a\\303\\251b\\n'"}}), "stdout_utf8"),
         (json!({"tool": "bash", "args": {"command": "printf 'err' >&2"}}), "stderr_only"),
+        // the shell exits at once; a background job keeps the task's stdout (only stdout) open and writes 5.6 s later
+        (json!({"tool": "bash", "args": {"command": "echo early; (sleep 5.6; echo late) 2>/dev/null &"}}), "background_job_holds_stdout"),
         (json!({"tool": "bash", "args": {"command": "printf 'a\\360\\237\\231\\202b h\\303\\251llo \\342\\234\\223 \\346\\227\\245\\346\\234\\254 done'"}}), "stdout_wide_chars"),
         (json!({"tool": "bash", "args": {"command": "printf out; printf err >&2; printf '\\377x'"}}), "both_binary"),
         (json!({"tool": "bash", "args": {"command": "head -c 20000 /dev/zero | tr '\\0' 'z'"}}), "20KiB"),
@@ -283,6 +285,7 @@ fn part_tasks(report: &Report, tier: Tier) {
     ];
     let expected_stdout: std::collections::HashMap<&str, Vec<u8>> = [
         ("stdout_utf8", "aéb\n".as_bytes().to_vec()),
+        ("background_job_holds_stdout", b"early\nlate\n".to_vec()),
         ("stdout_wide_chars", "a\u{1F642}b h\u{e9}llo \u{2713} \u{65e5}\u{672c} done".as_bytes().to_vec()),
         ("both_binary", b"out\xffx".to_vec()),
         ("20KiB", vec![b'z'; 20000]),
@@ -338,7 +341,8 @@ fn part_tasks(report: &Report, tier: Tier) {
             }
             std::thread::sleep(Duration::from_millis(3));
         }
-        std::thread::sleep(Duration::from_millis(30));
+        // (the background-job command: whatever still holds the task's pipes gets the time to write)
+        std::thread::sleep(Duration::from_millis(if *label == "background_job_holds_stdout" && *cancel == "never" { 1500 } else { 30 }));
         let frames = task_frames(&app, &id);
         let kinds: Vec<String> = frames
             .iter()
